@@ -78,7 +78,37 @@ def c_square(ctx, args):
     return None
 
 
-CHECKS = {'pmul_corr': c_pmul_corr, 'pmul_dense': c_pmul_dense, 'chain_corr': c_chain_corr, 'chain_dense': c_chain_dense,
+def c_forms(ctx, args):
+    """the product a @ b with each operand held as Pauli / PauliMonomial / PauliPolynomial (np): all nine combinations denote the same matrix product (dense oracle,
+    and, without matrices, the product of the plain Paulis)"""
+    a, b, fa, fb = args
+    import pyclifford as pc, vlib.impl_np as NP
+    def mk(x, f):
+        p = NP.P(x)
+        return p if f == 'pauli' else (p.as_monomial() if f == 'mono' else p.as_polynomial())
+    try:
+        r = mk(a, fa) @ mk(b, fb)
+    except NotImplementedError:
+        return None
+    ref = NP.oP(NP.P(a) @ NP.P(b))
+    if hasattr(r, 'cs'):
+        terms = [([int(v) for v in g], complex(c) * (1j ** (int(ph) % 4))) for g, ph, c in zip(r.gs, r.ps, r.cs)]
+    elif hasattr(r, 'c'):
+        terms = [([int(v) for v in r.g], complex(r.c) * (1j ** (int(r.p) % 4)))]
+    else:
+        terms = [([int(v) for v in r.g], 1j ** (int(r.p) % 4))]
+    want = (ref[0], 1j ** (ref[1] % 4))
+    if len(terms) != 1 or terms[0][0] != want[0] or abs(terms[0][1] - want[1]) > 1e-12:
+        return {'kind': 'oracle', 'where': 'np:%s @ %s differs from the product of the plain operators' % (fa, fb), 'observed': [[t[0], [t[1].real, t[1].imag]] for t in terms],
+                'expected': [want[0], [want[1].real, want[1].imag]], 'tags': ['operand_forms', fa, fb]}
+    n = len(a[0]) // 2
+    if n <= 3:
+        if not np.allclose(terms[0][1] * D.op(terms[0][0], 0), D.op(*a) @ D.op(*b)):
+            return {'kind': 'oracle', 'where': 'np:%s @ %s vs dense product' % (fa, fb), 'observed': terms[0][0], 'expected': 'matrix product', 'tags': ['operand_forms']}
+    return None
+
+
+CHECKS = {'forms': c_forms, 'pmul_corr': c_pmul_corr, 'pmul_dense': c_pmul_dense, 'chain_corr': c_chain_corr, 'chain_dense': c_chain_dense,
           'batch_corr': c_batch_corr, 'batch_dense': c_batch_dense, 'square': c_square}
 
 
@@ -135,3 +165,13 @@ def run(ctx):
         do(ctx, 'batch_corr', [be, l1, l2], nontrivial=('b', be, str(l1), str(l2)))
         if n <= 3:
             do(ctx, 'batch_dense', [be, l1, l2])
+    # operand forms: every combination of Pauli / monomial / polynomial on either side (all phases; anticommuting pairs are where an operand swap would show)
+    forms = ['pauli', 'mono', 'poly']
+    for a in gen.all_paulis(1):
+        for b in gen.all_paulis(1):
+            for fa in forms:
+                for fb in forms:
+                    do(ctx, 'forms', [a, b, fa, fb], nontrivial=('f', str(a), str(b), fa, fb))
+    for _ in range(int(300 * B)):
+        n = rng.randint(2, 5)
+        do(ctx, 'forms', [gen.rpauli(rng, n), gen.rpauli(rng, n), rng.choice(forms), rng.choice(forms)], nontrivial=('f', ctx.res.evaluations))
